@@ -51,6 +51,22 @@ def gen_cases(tier, seed):
         a, b = gbig[int(rng.integers(len(gbig)))], gbig[int(rng.integers(len(gbig)))]
         cases.append({"H": a[0], "W": b[0], "k": [a[1], b[1]], "s": [a[2], b[2]], "p": [a[3], b[3]], "d": [a[4], b[4]], "N": 1 + n % 2, "C": 1 + n % 3,
                       "pad_value": 0, "form": "tuple", "seed": int(rng.integers(2 ** 31))})
+    # sizes around the limits of the small integer types (index arithmetic), with padding that crosses them
+    edge = [(253, [3, 1], [2, 1], [2, 0]), (254, [2, 2], [3, 1], [3, 1]), (255, [3, 2], [2, 2], [4, 1]), (256, [2, 1], [2, 1], [2, 0]), (257, [3, 1], [3, 1], [3, 0]), (255, [1, 1], [1, 1], [2, 2])]
+    if tier == "thorough":
+        edge += [(65535, [2, 1], [8191, 1], [3, 0]), (65534, [3, 1], [9000, 1], [4, 0])]
+    for n, (H_, k_, s_, p_) in enumerate(edge):
+        for swap in (False, True):
+            c_ = {"H": H_, "W": 2, "k": k_, "s": s_, "p": p_, "d": [1, 1], "N": 1, "C": 1 + n % 2, "pad_value": 0, "form": "tuple", "seed": int(rng.integers(2 ** 31)),
+                  "size_class": "type-boundary"}
+            if swap:
+                c_ = dict(c_, H=2, W=H_, k=k_[::-1], s=s_[::-1], p=p_[::-1])
+            cases.append(c_)
+    # integer / bool images with fractional pad values: whatever one variant does with them, all variants do
+    for n in range(12 if tier == "quick" else 200):
+        a, b = g[int(rng.integers(len(g)))], g[int(rng.integers(len(g)))]
+        cases.append({"H": a[0], "W": b[0], "k": [a[1], b[1]], "s": [a[2], b[2]], "p": [a[3], b[3]], "d": [a[4], b[4]], "N": 1 + n % 2, "C": 1 + n % 2,
+                      "pad_value": [2.5, -0.5, 1, 0][n % 4], "form": "tuple", "seed": int(rng.integers(2 ** 31)), "int_image": ["int64", "int32", "bool", "uint8"][n % 4]})
     for e in ([{"H": 2, "W": 5, "k": [3, 1], "s": [1, 1], "p": [0, 0], "d": [1, 1]}, {"H": 2, "W": 2, "k": [3, 3], "s": [1, 1], "p": [0, 0], "d": [1, 1]},
                {"H": 4, "W": 4, "k": [2, 2], "s": [1, 1], "p": [0, 0], "d": [4, 1]}, {"H": 3, "W": 1, "k": [1, 2], "s": [2, 2], "p": [1, 0], "d": [1, 1]}]):
         cases.append(dict(e, N=1, C=1, pad_value=0, form="tuple", seed=1, empty=True))
@@ -80,6 +96,31 @@ def run_case(ns, mon, c):
     geo = dict(N=N, C=C, H=H, W=W, k=kk, s=ss, p=pp, d=dd, form=form, pad_value=c["pad_value"])
     counters = {"geometries": 1}
     viol = []
+    if c.get("int_image"):
+        xi = (rng.integers(0, 2, (N, C, H, W)).astype(bool) if c["int_image"] == "bool" else rng.integers(0, 9, (N, C, H, W)).astype(c["int_image"]))
+        res = {}
+        for name, f in (("im2col", lambda lay: ct.im2col(xi, k, d, s, p, c["pad_value"], as_unfold=lay)), ("im2col_v2", lambda lay: ct.im2col_v2(xi, k, d, s, p, c["pad_value"], as_unfold=lay)),
+                        ("im2col_fast", lambda lay: ct.im2col_fast(xi, k, d, s, p, c["pad_value"], as_unfold=lay))):
+            for lay in (False, True):
+                try:
+                    with np.errstate(all="ignore"):
+                        res[(name, lay)] = np.array(f(lay))
+                except Exception as e:
+                    res[(name, lay)] = type(e).__name__
+        counters["integer_image_cases"] = 1
+        for lay in (False, True):
+            a_ = res[("im2col", lay)]
+            for other in ("im2col_v2", "im2col_fast"):
+                b_ = res[(other, lay)]
+                if isinstance(a_, str) and isinstance(b_, str):
+                    continue
+                if isinstance(a_, str) != isinstance(b_, str):
+                    viol.append(V(f"variants-disagree:integer-image:im2col-vs-{other}:one-raises", f"im2col {'raises ' + a_ if isinstance(a_, str) else 'answers'}, "
+                                  f"{other} {'raises ' + b_ if isinstance(b_, str) else 'answers'} for a {c['int_image']} image with pad value {c['pad_value']}", geometry=geo))
+                elif a_.shape != b_.shape or a_.dtype != b_.dtype or not np.array_equal(a_, b_):
+                    viol.append(V(f"variants-disagree:integer-image:im2col-vs-{other}", f"im2col and {other} return different matrices (dtype {a_.dtype} vs {b_.dtype}) "
+                                  f"for a {c['int_image']} image with pad value {c['pad_value']}", geometry=geo))
+        return {"viol": viol + mon.drain(), "counters": counters, "key": ("int-image", c["int_image"], json.dumps(geo, sort_keys=True)), "cover": {"input_layouts": ["integer-image"]}}
     x = rng.standard_normal((N, C, H, W))
     layout = ["C", "C", "F", "transposed-view", "strided-view"][c["seed"] % 5]
     if layout == "F":
